@@ -224,7 +224,7 @@ fn backend<B: Backend>(opts: &Opts, rep: &mut Report) {
         }
 
         // --- randomness dimension: identical inputs sealed N times
-        let n = if slow { opts.size(500, 5000) } else { opts.size(3000, 50000) };
+        let n = if slow { opts.size(2000, 10000) } else { opts.size(20000, 200000) };
         let kp = &keys[1].1;
         let msg = br#"{"data":"this is a signed message","exp":"2039-01-01T00:00:00+00:00"}"#;
         for _ in 0..n {
